@@ -138,6 +138,7 @@ class OriginDomain(Domain):
         return None
 
     def _real(self, v, node):
+        self.interp.emit('real', node=node, value=v)
         if not v.r.is_zero():
             self.interp.emit('real-of-ramped', node=node, value=v)
         return v
